@@ -40,7 +40,7 @@ MANIFEST = {
         "design_ref": "DESIGN.md 3/C08",
     }
 }
-PROPS = ["Nstd.Buffer.Props"]
+PROPS = ["Nstd.Buffer.Props", "Nstd.Buffer.PropsBacklog"]
 LEAN_TARGETS = PROPS + ["drv_buffer"]
 DRIVER = "drv_buffer"
 REGLEN = [8, 5]
@@ -76,7 +76,9 @@ def reference(hist, impl_out):
         v = int(t[1]) if len(t) > 1 else 0
         w = int(t[2]) if len(t) > 2 and op in ("copy", "assignb", "prependb", "appendb", "swap", "eq") else 0
         if op == "state":
-            out.append(None)        # white-box line: compared with the model only
+            # white-box line: pointer kind / _capacity / head-room are compared with the model only; size(), isEmpty() are
+            # determined by the byte queue
+            out.append(f"state size={len(q[v])} empty={1 if not q[v] else 0}" if v < 2 else None)
             continue
         if op == "heap":
             # no leak / no lost block: exactly the owning variables hold a live allocation (ownership flags are
@@ -152,6 +154,9 @@ def ref_eq(impl, ref):
         return impl == ref
     if impl.startswith("eq") or ref.startswith("eq"):
         return impl == ref or (ref == "eq ?" and impl in ("eq 0", "eq 1"))
+    if ref.startswith("state"):
+        ti = impl.split(" ")
+        return impl.startswith("state ") and len(ti) == 8 and ti[1] == ref.split(" ")[1][5:] and ti[5:7] == ref.split(" ")[1:3]
     if impl.startswith("FAULT") or "#" not in impl:
         return False
     vars_i = impl.split(" # ")[0].split(" | ")
@@ -302,6 +307,106 @@ def boundary_family(maxcap):
                     tails += [f"resize 0 {n}", f"append 0 {d}", f"prepend 0 {d}", f"assign 0 {d}", f"removeBack 0 {n}",
                               f"reserve 0 {n}"]
                 hs += [pre + [t, "state 0", "state 1", "heap", "prepend 0 7a", "eq 0 1", "state 0", "heap"] for t in tails]
+    return hs
+
+
+class H(list):
+    """a history that remembers which stream it belongs to (branch counters are also kept per stream)"""
+    tag = ""
+
+    def __reduce__(self):
+        return (_mk_h, (list(self), self.tag))
+
+
+def _mk_h(lines, tag):
+    h = H(lines)
+    h.tag = tag
+    return h
+
+
+def tagged(tag, hs):
+    return [_mk_h(h, tag) for h in hs]
+
+
+def _sim_backlog(st, op, n):
+    """(s, e, cap) of an owning/default Buffer under today's capacity policy – only used to aim the scripted sizes at
+    the branch boundaries; never part of a verdict"""
+    s_, e_, cap = st
+    if op == "append":
+        size = e_ - s_ + n
+        if size > cap: return (0, size, size)
+        if s_ + size <= cap: return (s_, s_ + size, cap)
+        return (0, size, cap)
+    if op == "removeFront":
+        return (0, 0, cap) if s_ + n >= e_ else (s_ + n, e_, cap)
+    return (0, 0, 0)
+
+
+def backlog_family(quick):
+    """scripted send-backlog streams (Server.cpp:343-357,459-475) on a default-constructed Buffer:
+    (a) EVERY combination  append a; removeFront r; append n; removeFront r2; append n2  with a <= A, r <= size + 1,
+        n <= a + 2 (the window at every offset and size around the capacity of a small allocation),
+    (b) for large first chunks (16, 100, 1000, ...) the sizes are aimed at the boundaries of resize():
+        n in {spare-1, spare, spare+1} (in place | compact to front) and {spare+s-1, spare+s, spare+s+1} (compact |
+        reallocate), r in {0, 1, size/2, size-1, size, size+1}; two rounds, then drain and free.
+    `state`/`heap` after every step tie head-room, _capacity and the live allocations."""
+    hs = []
+    pat = [1 + (i * 7) % 251 for i in range(2100)]
+
+    def app(n, pos):
+        return f"append 0 {hexs(pat[pos:pos + n])}"
+
+    A = 5 if quick else 7
+    for a in range(A + 1):
+        for r in range(a + 2):
+            for n in range(a + 3):
+                size1 = max(0, a - r) + n
+                for r2 in sorted({0, 1, size1 // 2, max(0, size1 - 1), size1, size1 + 1}):
+                    for n2 in range(0, a + 3):
+                        hs.append([app(a, 0), f"removeFront 0 {r}", "state 0", app(n, a), "state 0", f"removeFront 0 {r2}",
+                                   "state 0", app(n2, a + n), "state 0", "heap", "removeFront 0 1", "state 0"])
+    big = [16, 100, 1000] if quick else [16, 17, 64, 100, 255, 256, 1000]
+
+    def rounds(st, pos, size, depth, acc):
+        if depth == 0:
+            hs.append(acc + [f"removeFront 0 {size}", "state 0", "free 0", "state 0", "heap"])
+            return
+        for r in sorted({0, 1, size // 2, max(0, size - 1), size, size + 1}):
+            st1 = _sim_backlog(st, "removeFront", r)
+            size1 = max(0, size - r)
+            spare, head = st1[2] - st1[1], st1[0]
+            for n in sorted({1, spare - 1, spare, spare + 1, spare + head - 1, spare + head, spare + head + 1}):
+                if n < 0 or n > 1100:
+                    continue
+                st2 = _sim_backlog(st1, "append", n)
+                rounds(st2, pos + n, size1 + n, depth - 1,
+                       acc + [f"removeFront 0 {r}", "state 0", app(n, pos), "state 0", "heap"])
+
+    for a in big:
+        rounds((0, a, a), a, a, 2, [app(a, 0), "state 0"])
+    return hs
+
+
+def attach_family(maxcap):
+    """attach on a Buffer that owned storage before (the stale-_capacity shape `owning(100); attach(16); append(8)`):
+    every way of owning a capacity 0..maxcap (and one large), every attached length, then every growing / shrinking
+    operation with every size 0..capacity+2"""
+    hs = []
+    for cap in list(range(maxcap + 1)) + [100]:
+        data = hexs([0x61 + i % 26 for i in range(cap)])
+        owners = [[f"newcap 0 {cap}"], [f"newdata 0 {data}"], [f"append 0 {data}", "removeFront 0 1"],
+                  [f"reserve 0 {cap}", "append 0 41"]]
+        for own in owners:
+            for ln in range(0, 9):
+                sizes = sorted(set(list(range(min(cap, 8) + 3)) + [max(0, cap - ln), max(0, cap - ln + 1), cap, cap + 1]))
+                tails = ["appendb 0 0", "prependb 0 0", "appendsub 0 1 9", "assignb 0 0", "clear 0", "swap 0 1", "copy 1 0",
+                         "appendb 1 0", "removeFront 0 1", f"removeFront 0 {ln}"]
+                for n in sizes:
+                    d = hexs([0x41 + i % 26 for i in range(n)])
+                    tails += [f"resize 0 {n}", f"append 0 {d}", f"prepend 0 {d}", f"assign 0 {d}", f"removeBack 0 {n}",
+                              f"reserve 0 {n}"]
+                hs += [own + [f"attach 0 0 0 {min(ln, 8)}", "state 0", t, "state 0", "state 1", "heap", "append 0 7a", "state 0", "heap"]
+                       for t in tails]
     return hs
 
 
@@ -543,6 +648,12 @@ def _batch(args):
         if k is not None:
             keys.add(k)
         branch_stats(h, o, cnt)
+        tag = getattr(h, "tag", "")
+        if tag:
+            c2 = {}
+            branch_stats(h, o, c2)
+            for kk, n in c2.items():
+                cnt[f"[{tag}] {kk}"] = cnt.get(f"[{tag}] {kk}", 0) + n
     return ds, nlines, done, keys, cnt
 
 
@@ -576,6 +687,8 @@ def histories_for(ctx):
     ncorpus = len(hs)
     ex = exhaustive(3 if quick else 4)
     fam = boundary_family(6 if quick else 12)
+    bl = tagged("backlog", backlog_family(quick))
+    af = tagged("attach-after-owning", attach_family(6 if quick else 12))
     nr = 30000 if quick else 120000
     rnd = [gen_history(rng, rng.choice([5, 10, 20, 40])) for _ in range(nr)]
     rnd += [gen_history(rng, rng.choice([10, 30, 60]), big=True) for _ in range(nr // 6)]
@@ -583,12 +696,15 @@ def histories_for(ctx):
     ctx.cov["rule"] = (f"corpus ({ncorpus}) + exhaustive: all op sequences of length <= {3 if quick else 4} over a {len(SMALL_OPS)}-op "
                        f"alphabet (sizes 0,1,3,4,5; attach; self/other arguments)"
                        f" ({len(ex)} histories) + capacity/head-room boundary family: capacity 0..{6 if quick else 12} x bytes held x bytes removed x "
-                       f"every growing/shrinking op with sizes 0..capacity+2 ({len(fam)} histories) + {len(rnd)} random histories (5..60 ops over 2 variables and 2 attachable regions which may be shared; "
+                       f"every growing/shrinking op with sizes 0..capacity+2 ({len(fam)} histories) + scripted send-backlog streams on a default Buffer: every "
+                       f"append a; removeFront r; append n; removeFront r2; append n2 with a <= {5 if quick else 7} plus two boundary-aimed sliding rounds after first chunks "
+                       f"of 16..1000 bytes ({len(bl)} histories) + attach on a Buffer that owned capacity 0..{6 if quick else 12}/100 before x attached length 0..8 x every op "
+                       f"with sizes 0..capacity+2 ({len(af)} histories) + {len(rnd)} random histories (5..60 ops over 2 variables and 2 attachable regions which may be shared; "
                        "sizes 0..16, boundary sizes relative to the current lengths, 1/7 with sizes up to 300, 1/11 following the Server.cpp send-backlog pattern); "
                        "distinct_nontrivial = distinct (op-kind set, final observation) among histories with >= 3 ops and a non-empty final buffer")
     ctx.cov["exhaustive"] = True   # the enumerated scope is run completely (the random part is sampled)
-    ctx.cov["exhaustive_scope"] = f"length<={3 if quick else 4} over {len(SMALL_OPS)} ops: {len(ex)} histories; boundary family: {len(fam)} histories"
-    return hs + ex + fam + rnd
+    ctx.cov["exhaustive_scope"] = f"length<={3 if quick else 4} over {len(SMALL_OPS)} ops: {len(ex)} histories; boundary family: {len(fam)} histories; send-backlog family: {len(bl)} histories; attach-after-owning family: {len(af)} histories"
+    return hs + ex + fam + bl + af + rnd
 
 
 def check(ctx):
